@@ -145,9 +145,25 @@ fn exec_c08(case: &Case08, obs: &mut Obs) -> Result<(), Failure> {
                     Ok(a) => a,
                     Err(_) => return Ok(()), // not decodable alone: C01/C04's business
                 };
-                if a.result.is_err() {
-                    return Ok(()); // the property speaks of accepted messages
-                }
+                let a = if a.result.is_err() {
+                    // rejected alone: if the reference peer produced it as a
+                    // valid message ("repeated decode of encode(m1)++..++
+                    // encode(mk) yields m1..mk"), the reference decoder's
+                    // value stands in; otherwise the property does not speak
+                    match spec_decode(m, o).result {
+                        Ok(v) => {
+                            obs.count("probe:alone-rejected-reference-accepts");
+                            MsgOut {
+                                result: Ok(v),
+                                remaining: 0,
+                                mon: MonSnap::none(),
+                            }
+                        }
+                        Err(_) => return Ok(()),
+                    }
+                } else {
+                    a
+                };
                 let d = match declared_len(m) {
                     Some(d) if d == m.len() => d,
                     None if i + 1 == msgs.len() && trail.is_empty() => m.len(),
